@@ -33,6 +33,8 @@ THEOREMS = [
     "MjProof.C17.conn_iff_eqvGen",
     "MjProof.C17.merge_static_error",
     "MjProof.C17.assign_ascending",
+    "MjProof.C17.island_numbering_unique",
+    "MjProof.C17.exists_smallest_tree",
     "MjProof.C17.maps_inverse",
     "MjProof.C17.dof_unconstrained_iff",
     "MjProof.C17.efc_same_island_iff",
@@ -165,9 +167,10 @@ def random_dsu(ctx, count, maxn):
             ops = ["m %d %d" % (rng.randint(-1, n - 1), rng.randint(-1, n - 1)) for _ in range(k)]
         # sprinkle root queries (compression) between merges, assign at the end (sometimes twice / followed by merges)
         out = []
+        quiet = n > 40      # large sessions: merges without the per-op dump of parent (it is dumped by r / A)
         for o in ops:
-            out.append(o)
-            if rng.random() < 0.15:
+            out.append("q" + o[1:] if quiet and rng.random() < 0.9 else o)
+            if rng.random() < (0.03 if quiet else 0.15):
                 out.append("r %d" % rng.randrange(n))
         out.append("A")
         if rng.random() < 0.2:
@@ -197,7 +200,7 @@ def dsu_oracle(line, out):
     for op, r in zip(ops, res):
         if "canary" in r:
             return "write outside the parent/island arrays"
-        if op[0] == "m":
+        if op[0] in ("m", "q"):
             a, b = int(op[1]), int(op[2])
             if a == -1 and b == -1:
                 if r != "error":
@@ -211,6 +214,8 @@ def dsu_oracle(line, out):
                 b = a
             touched[a] = touched[b] = True
             uf.union(a, b)
+            if op[0] == "q":
+                continue
             p = ints(r[2:])
         elif op[0] == "r":
             t = int(op[1])
@@ -369,8 +374,9 @@ def gen_scenes(ctx):
         steps = rng.choice((0, 0, 1, 3, 10, 40))
         spread = rng.choice((0, 0, 1, 2, 4))
         seed = rng.randint(0, 10 ** 6)
-        lines.append("scene %d %d %d %d %d %d %d %d %d %d" % (seed, nfree, nchain, neq, njeq, ntd, jac, cone, steps, spread))
-        k = "%s:%s:%s" % (size, "sparse" if jac else "dense", "elliptic" if cone else "pyramidal")
+        nflex = rng.choice((0, 0, 0, 1, 2, 3))
+        lines.append("scene %d %d %d %d %d %d %d %d %d %d %d" % (seed, nfree, nchain, neq, njeq, ntd, jac, cone, steps, spread, nflex))
+        k = "%s:%s:%s%s" % (size, "sparse" if jac else "dense", "elliptic" if cone else "pyramidal", ":flex" if nflex else "")
         hist[k] = hist.get(k, 0) + 1
     ctx.extra["scene_distribution"] = hist
     return lines
@@ -387,24 +393,42 @@ def parse_dump(out):
             d[name] = [ints(x) for x in rest.split(";")] if d["nefc"] else []
         elif name == "contact_trees":
             d[name] = [ints(x) for x in rest.split(";")] if d["ncon"] else []
+        elif name in ("flexinfo", "flextrees"):
+            d[name] = [ints(x) for x in rest.split(";")] if rest.strip() else []
         else:
             d[name] = ints(rest)
     return d
 
 
+FLEX_EQ = (4, 5, 6)   # mjEQ_FLEX, mjEQ_FLEXVERT, mjEQ_FLEXSTRAIN: every scalar row has its own tree pattern
+
+
 def constraints_of(d):
-    """Group rows into constraints (consecutive rows with equal efc_type, efc_id); trees per constraint from the
-    non-zero Jacobian entries of all its rows.  Returns list of (first_row, nrows, sorted tree list)."""
+    """Group rows into constraints (consecutive rows with equal efc_type, efc_id; rows of flex equalities stay
+    separate); trees per constraint from the non-zero Jacobian entries of all its rows.
+    Returns list of (first_row, nrows, sorted tree list)."""
     out = []
     i, nefc = 0, d["nefc"]
     while i < nefc:
         j = i
         trees = set()
-        while j < nefc and d["efc_type"][j] == d["efc_type"][i] and d["efc_id"][j] == d["efc_id"][i]:
+        single = d["efc_type"][i] == 0 and d["eq_type"][d["efc_id"][i]] in FLEX_EQ
+        while j < nefc and d["efc_type"][j] == d["efc_type"][i] and d["efc_id"][j] == d["efc_id"][i] and not (single and j > i):
             trees |= {d["dof_treeid"][k] for k in d["rowdofs"][j]}
             j += 1
         out.append((i, j - i, sorted(trees)))
         i = j
+    return out
+
+
+def active_flexes(d):
+    """Vertex trees of the stiffness-active flexes (deformable, dim >= 2, bending or non-zero stiffness)."""
+    out = []
+    for info, trees in zip(d.get("flexinfo", []), d.get("flextrees", [])):
+        rigid, dim, stiffnz, bendadr, interp = info
+        if rigid or dim < 2 or (bendadr < 0 and stiffnz <= 0) or interp:
+            continue
+        out.append(trees)
     return out
 
 
@@ -413,8 +437,12 @@ def island_line(d, cons):
     for (_i, nr, trees) in cons:
         rows.append(" ".join(map(str, trees)))
         rows += ["="] * (nr - 1)
-    return "island %d : %s : %s : %s" % (d["ntree"], " ".join(map(str, d["tree_dofnum"])),
+    line = "island %d : %s : %s : %s" % (d["ntree"], " ".join(map(str, d["tree_dofnum"])),
                                          " ".join(map(str, d["dof_treeid"])), " ; ".join(rows))
+    fl = active_flexes(d)
+    if fl:
+        line += " : " + " ; ".join(" ".join("%d/%d" % (t, d["tree_awake"][t] if t >= 0 else 1) for t in f) for f in fl)
+    return line
 
 
 ENGINE_FIELDS = ["tree_island", "island_ntree", "island_itreeadr", "map_itree2tree", "dof_island", "island_nv",
@@ -463,11 +491,16 @@ def scene_oracle(d):
     for (i, _nr, trees) in cons:
         if d["efc_type"][i] in CONTACT_TYPES:
             ct = d["contact_trees"][d["efc_id"][i]]
-            if sorted({t for t in ct if t >= 0}) != trees:
+            if -9 not in ct and sorted({t for t in ct if t >= 0}) != trees:
                 return "skip", "contact Jacobian has a structurally zero tree block"
         if not trees:
             return "skip", "constraint row with all-zero Jacobian"
-    exp, nexp = expected_islands(ntree, [t for (_i, _n, t) in cons])
+    if any(info[4] for info in d.get("flexinfo", [])):
+        return "skip", "interpolated flex"
+    # coupling graph: trees sharing a constraint, and all awake dynamic vertex trees of a stiffness-active flex
+    # (only if the flex has at least ... any such tree; a flex whose trees are otherwise unconstrained still forms an island)
+    fgroups = [[t for t in f if t >= 0 and d["tree_awake"][t]] for f in active_flexes(d)]
+    exp, nexp = expected_islands(ntree, [t for (_i, _n, t) in cons] + [g for g in fgroups if len(set(g)) > 1])
     if nefc == 0 or nexp == 0:
         return (None, "") if d["nisland"] == 0 else ("c17:nisland", "islands reported without constraints")
     if d["nisland"] != nexp:
@@ -512,12 +545,19 @@ def run_scenes(ctx, drv, impl, lines, label="mj_island on mjSpec scenes vs Lean 
                            {"line": lines[k], "stderr": err[-400:], "replay": "echo '%s' | <c17_island harness>" % lines[k]})
         return
     model_lines, model_exp, src = [], [], []
-    stats = {"scenes": 0, "skipped": 0, "with_islands": 0, "max_nisland": 0, "max_ntree": 0, "max_nefc": 0, "engine_error": 0,
+    stats = {"scenes": 0, "skipped": 0, "with_active_flex": 0, "flex_equality_rows": 0, "with_islands": 0, "max_nisland": 0, "max_ntree": 0, "max_nefc": 0, "engine_error": 0,
              "multi_island": 0, "with_unconstrained_tree": 0, "generic_scan_constraints": 0}
     nfail = 0
     for l, o in zip(lines, outs):
         if o.startswith("compile-error"):
             raise RuntimeError("scene does not compile: %s -> %s" % (l, o))
+        if o.startswith("crash"):
+            stats["engine_error"] += 1
+            nfail += 1
+            if nfail <= 5:
+                ctx.oracle_failure("c17:scene-crash", "the engine crashed on a generated scene (%s)" % o,
+                                   {"line": l, "replay": "echo '%s' | <c17_island harness>" % l})
+            continue
         if o.startswith("engine-error"):
             stats["engine_error"] += 1
             nfail += 1
@@ -536,6 +576,8 @@ def run_scenes(ctx, drv, impl, lines, label="mj_island on mjSpec scenes vs Lean 
         stats["max_nisland"] = max(stats["max_nisland"], d["nisland"])
         stats["max_ntree"] = max(stats["max_ntree"], d["ntree"])
         stats["max_nefc"] = max(stats["max_nefc"], d["nefc"])
+        stats["with_active_flex"] += bool(active_flexes(d)) and d["nisland"] > 0
+        stats["flex_equality_rows"] += sum(1 for r in range(d["nefc"]) if d["efc_type"][r] == 0 and d["eq_type"][d["efc_id"][r]] in FLEX_EQ)
         stats["generic_scan_constraints"] += sum(1 for (i, _n, _t) in constraints_of(d) if d["efc_type"][i] in (2, 4) or
                                                  (d["efc_type"][i] == 0))
         if verdict:
@@ -566,6 +608,31 @@ def run_scenes(ctx, drv, impl, lines, label="mj_island on mjSpec scenes vs Lean 
 
 
 # ------------------------------------------------------------------------------------------ run
+def replay(ctx, drv, impl):
+    """Re-run the op lines recorded in a replay file (failures[].replay.line / disagreements[].line)."""
+    rp = json.load(open(ctx.replay))
+    lines = []
+    for f in rp.get("failures", []):
+        l = (f.get("replay") or {}).get("line")
+        if l and l not in lines:
+            lines.append(l)
+    for b in rp.get("disagreements", []):
+        if b.get("line") and b["line"] not in lines:
+            lines.append(b["line"])
+    ops = [l for l in lines if l.startswith(("dsu", "ff"))]
+    scenes = [l for l in lines if l.startswith("scene")]
+    if ops:
+        rc, outs, err = ctx.run_lines([impl], ops)
+        ctx.differential("replayed ops vs Lean model", [drv], [impl], ops, keyf=keyf)
+        for l, o in zip(ops, outs):
+            why = dsu_oracle(l, o) if l.startswith("dsu") else ff_oracle(l, o)
+            if why:
+                ctx.oracle_failure("c17:%s:%s" % (l.split()[0], why), why, {"line": l, "impl_output": o[:3000]})
+    if scenes:
+        run_scenes(ctx, drv, impl, scenes, label="replayed scenes vs Lean pipeline")
+    ctx.extra["replayed_lines"] = len(lines)
+
+
 def keyf(line):
     return line if (";" in line or ":" in line) else None
 
@@ -582,6 +649,8 @@ def run(ctx):
     impl = ctx.harness("harness/c/c17_island.c", "c17_island")
     if not (drv and impl):
         return
+    if getattr(ctx, "replay", None):
+        return replay(ctx, drv, impl)
     # ---- union-find: exhaustive over reachable states + random
     lines = []
     for n in ((1, 2, 3, 4, 5, 6) if thorough else (1, 2, 3, 4, 5)):
@@ -630,9 +699,9 @@ def run(ctx):
         # a tie/proof obligation broke without an oracle hit: look harder on the engine with fresh scenes
         extra = []
         for i in range(300):
-            extra.append("scene %d %d %d %d %d %d %d %d %d %d" % (c.rng.randint(0, 10 ** 6), c.rng.randint(1, 25), c.rng.randint(0, 10),
+            extra.append("scene %d %d %d %d %d %d %d %d %d %d %d" % (c.rng.randint(0, 10 ** 6), c.rng.randint(1, 25), c.rng.randint(0, 10),
                          c.rng.randint(0, 4), c.rng.randint(0, 3), c.rng.randint(0, 3), c.rng.randint(0, 1), c.rng.randint(0, 1),
-                         c.rng.choice((0, 1, 5)), c.rng.randint(0, 3)))
+                         c.rng.choice((0, 1, 5)), c.rng.randint(0, 3), c.rng.choice((0, 0, 1, 2))))
         rc2, o2, _ = c.run_lines([impl], extra)
         if rc2 != 0:
             return None
